@@ -519,17 +519,20 @@ uniform_case_impl!(uniform_u16_12, u16, 12, true);
 uniform_case_impl!(uniform_u16_16, u16, 16, true);
 uniform_case_impl!(uniform_u32_24, u32, 24, false);
 uniform_case_impl!(uniform_u32_32, u32, 32, false);
-pub const UNIFORM_PARTS: [&str; 6] = ["u8/3", "u8/8", "u16/12", "u16/16", "u32/24", "u32/32"];
+// (PRECISION == Probability::BITS == usize::BITS: 2^P does not fit the arithmetic's own integer type)
+uniform_case_impl!(uniform_u64_64, u64, 64, false);
+uniform_case_impl!(uniform_u64_40, u64, 40, false);
+pub const UNIFORM_PARTS: [&str; 8] = ["u8/3", "u8/8", "u16/12", "u16/16", "u32/24", "u32/32", "u64/64", "u64/40"];
 
 pub fn uniform_ranges(part: &str, thorough: bool) -> Vec<usize> {
     let f: Vec<&str> = part.split('/').collect();
     let p: u32 = f[2].parse().unwrap();
-    let prb: u32 = match f[1] { "u8" => 8, "u16" => 16, _ => 32 };
+    let prb: u32 = match f[1] { "u8" => 8, "u16" => 16, "u64" => 64, _ => 32 };
     let mut v: Vec<usize> = vec![];
-    let t = 1usize << p;
+    let t = if p >= 64 { usize::MAX } else { 1usize << p };
     let small_all = if p <= 8 { t + 3 } else if thorough { 5000 } else { 600 };
     v.extend(0..=small_all.min(70000));
-    for x in [t - 2, t - 1, t, t + 1, t + 2, t / 2, t / 2 + 1, t / 3, 65535, 65536, 65537] { if x <= 70000 || x >= t { v.push(x); } }
+    for x in [t - 2, t - 1, t, t.saturating_add(1), t.saturating_add(2), t / 2, t / 2 + 1, t / 3, 65535, 65536, 65537] { if x <= 70000 || x >= t { v.push(x); } }
     // ranges congruent to small ones modulo 2^ProbabilityBits (aliasing candidates) and huge ones
     for k in [0usize, 1, 2, 3, 10] { if prb < 63 { v.push((1usize << prb) + k); } v.push((1usize << 32) + k); v.push((1usize << 33) + k); }
     v.push(usize::MAX);
@@ -553,6 +556,7 @@ pub fn uniform_part_run(part: &str, from: u64, to: u64, want: &str, sink: &mut C
             match key.as_str() {
                 "u8/3" => uniform_u8_3(r, &mut c), "u8/8" => uniform_u8_8(r, &mut c), "u16/12" => uniform_u16_12(r, &mut c),
                 "u16/16" => uniform_u16_16(r, &mut c), "u32/24" => uniform_u32_24(r, &mut c), "u32/32" => uniform_u32_32(r, &mut c),
+                "u64/64" => uniform_u64_64(r, &mut c), "u64/40" => uniform_u64_40(r, &mut c),
                 other => panic!("HARNESS: unknown uniform part {other}"),
             }
         }
